@@ -47,6 +47,7 @@ SIG_F5_WI = "C09:upload-dir:children-under-cwd/dest.name:write_into-dest-with-pa
 SIG_F5_NOWI = "C09:upload-dir:children-under-cwd/source.name:no-write_into-nonempty-dest"
 
 AWKWARD_NAMES = ["notes; draft.txt", "a;b", "type=dir; x", "-archive", "-la", "-R old", "x -> y", "q\"uote", "sp  ace", "é ü", "[p]riv*?", "1 Jan  1 00:00 z"]
+LEADING_BLANK_NAMES = [" lead.txt", "\u3000wide", "  two", "\tx"]
 DESTS = ["", "d", "d1/d2", "/abs/q"]
 EXTRA_DESTS = [".", "d/", "w2/d", "/w/q", "/q", "a", "d1/d2/d3", "/"]
 BLOCKS = [1, 3, 8192]
@@ -702,11 +703,17 @@ def gen_scenarios(ctx, search=False):
     # (6) names that are awkward for the line formats but perfectly legal (C08's alphabet, without leading/trailing
     #     whitespace): as a file, as a directory with children, and as the TOP name addressed relative to the working
     #     directory - on the MLSD server and on the LIST-only server
-    for j, nm in enumerate(AWKWARD_NAMES):
+    for j, nm in enumerate(AWKWARD_NAMES + LEADING_BLANK_NAMES):
         inner = ("D", {nm: ("F", b"in " + nm.encode("utf-8")), "plain": ("D", {nm: ("D", {"deep": ("F", b"d")})}), "e": ("D", {})})
+        if nm in LEADING_BLANK_NAMES:
+            # ... with the twin name without the blank beside it: two different entries
+            inner[1][nm.lstrip()] = ("F", b"twin")
         top = ("D", {"x": ("F", b"x"), "sub": ("D", {"y": ("F", b"y")}), "e": ("D", {})})
         for k, (node, src_name, rem_name) in enumerate(((inner, "foo", "t2"), (top, nm, nm))):
-            for m in (True, False):
+            if nm in LEADING_BLANK_NAMES and k == 1:
+                continue  # (a command line cannot START its argument with a blank: such a name is only reachable below another)
+            # names that start with white space are carried by MLSD only (the LIST format cannot: known finding of C08)
+            for m in ((True,) if nm in LEADING_BLANK_NAMES else (True, False)):
                 for wi in (True, False):
                     v = n
                     scs.append(make_scenario(node, node, ["", "d"][(j + k) % 2] if wi else "", wi, "/", m, BLOCKS[n % 3], "", bool(k), src_name=src_name,
